@@ -51,3 +51,32 @@ package req
 //@
 //@ func (*context).RecvMsg
 //@   ensures result0 != nil ==> isnil(result1)
+// ---- generated option contracts (tools/gen_option_contracts.py) ----
+//@ func (*context).SetOption
+//@   ensures name != protocol.OptionRetryTime && name != protocol.OptionRecvDeadline && name != protocol.OptionSendDeadline && name != protocol.OptionBestEffort && name != protocol.OptionFailNoPeers ==> result == protocol.ErrBadOption
+//@   ensures name == protocol.OptionRetryTime ==> (isnil(result) <==> is_duration(value))
+//@   ensures name == protocol.OptionRetryTime && !isnil(result) ==> result == protocol.ErrBadValue
+//@   ensures name == protocol.OptionRetryTime && isnil(result) ==> c.resendTime == int_of(value)
+//@   ensures name == protocol.OptionRecvDeadline ==> (isnil(result) <==> is_duration(value))
+//@   ensures name == protocol.OptionRecvDeadline && !isnil(result) ==> result == protocol.ErrBadValue
+//@   ensures name == protocol.OptionRecvDeadline && isnil(result) ==> c.receiveExpire == int_of(value)
+//@   ensures name == protocol.OptionSendDeadline ==> (isnil(result) <==> is_duration(value))
+//@   ensures name == protocol.OptionSendDeadline && !isnil(result) ==> result == protocol.ErrBadValue
+//@   ensures name == protocol.OptionSendDeadline && isnil(result) ==> c.sendExpire == int_of(value)
+//@   ensures name == protocol.OptionBestEffort ==> (isnil(result) <==> is_bool(value))
+//@   ensures name == protocol.OptionBestEffort && !isnil(result) ==> result == protocol.ErrBadValue
+//@   ensures name == protocol.OptionBestEffort && isnil(result) ==> c.bestEffort == bool_of(value)
+//@   ensures name == protocol.OptionFailNoPeers ==> (isnil(result) <==> is_bool(value))
+//@   ensures name == protocol.OptionFailNoPeers && !isnil(result) ==> result == protocol.ErrBadValue
+//@   ensures name == protocol.OptionFailNoPeers && isnil(result) ==> c.failNoPeers == bool_of(value)
+//@   ensures !isnil(result) ==> unchanged(c.bestEffort, c.failNoPeers, c.receiveExpire, c.resendTime, c.sendExpire)
+//@
+//@ func (*context).GetOption
+//@   ensures option != protocol.OptionRetryTime && option != protocol.OptionRecvDeadline && option != protocol.OptionSendDeadline && option != protocol.OptionBestEffort && option != protocol.OptionFailNoPeers ==> result1 == protocol.ErrBadOption && isnil(result0)
+//@   ensures option == protocol.OptionRetryTime ==> isnil(result1) && result0 == iface(c.resendTime)
+//@   ensures option == protocol.OptionRecvDeadline ==> isnil(result1) && result0 == iface(c.receiveExpire)
+//@   ensures option == protocol.OptionSendDeadline ==> isnil(result1) && result0 == iface(c.sendExpire)
+//@   ensures option == protocol.OptionBestEffort ==> isnil(result1) && result0 == iface(c.bestEffort)
+//@   ensures option == protocol.OptionFailNoPeers ==> isnil(result1) && result0 == iface(c.failNoPeers)
+//@
+// ---- end generated option contracts ----
